@@ -55,7 +55,7 @@ MANIFEST = {
 }
 
 QUICK_N = 28
-THOROUGH_N = 500
+THOROUGH_N = 360
 WORKERS = 12
 TIMEOUT = 240.0
 
@@ -87,10 +87,13 @@ def norm_panic(txt):
 
 
 def _names_only_variant(x, y):
-    """do two diagnostic lists differ only in the NAME an undefined_identifier at the same range reports?"""
+    """do two diagnostic lists differ only in the NAME an undefined_identifier / unknown_member at the same range
+    reports (and in how often it is repeated)?"""
+    NAMED = ("undefined_identifier", "unknown_member")     # the reported name / member is what varies
+
     def split(ds):
-        other = sorted(repr(d) for d in ds if d[5] != "undefined_identifier")
-        und = sorted(set(tuple(d[:5]) for d in ds if d[5] == "undefined_identifier"))
+        other = sorted(repr(d) for d in ds if d[5] not in NAMED)
+        und = sorted(set(tuple(d[:6]) for d in ds if d[5] in NAMED))
         return other, und
     return split(x or []) == split(y or [])
 
